@@ -5,6 +5,52 @@ import storelib
 import vlib
 
 
+def big_collections():
+    """Collections far larger than the generator's pools (200 elements): whatever a store switches to beyond some size
+    (an index, another representation) has to behave like the small case under removals in every order."""
+    from cmdlib import tok
+    R = lambda name, *a: {"cls": "c18", "name": name, "args": list(a)}
+    S = lambda x: tok("str", x)
+    I = lambda n: tok("int", n=n)
+    ms = ["m%03d" % i for i in range(200)]
+    orders = {"last-first": list(reversed(ms)), "first-first": list(ms), "middle-out": ms[100:] + ms[:100],
+              "stride": [ms[(i * 37) % 200] for i in range(200)]}
+    out = []
+    scen = lambda reqs: {"handler": "example", "tracer": False, "nconns": 1, "model": True,
+                         "steps": [{"c": 0, "op": "send", "chunking": "perreq", "reqs": reqs}]}
+    for oname, order in sorted(orders.items()):
+        # sets
+        reqs = [R("SADD", S("sa"), *[S(m) for m in ms[:100]]), R("SADD", S("sa"), *[S(m) for m in ms[50:]]), R("SCARD", S("sa"))]
+        for i, m in enumerate(order[:140]):
+            reqs.append(R("SREM", S("sa"), S(m)))
+            if i % 10 == 0:
+                reqs += [R("SISMEMBER", S("sa"), S(m)), R("SCARD", S("sa")), R("SMEMBERS", S("sa")), R("SREM", S("sa"), S(m))]
+        reqs += [R("SADD", S("sa"), S(order[0]), S(order[1])), R("SMEMBERS", S("sa")), R("SCARD", S("sa"))]
+        out.append(scen(reqs))
+        # hashes
+        reqs = [R("HSET", S("ha"), S(m), S("v%d" % (i % 3 + 1))) for i, m in enumerate(ms[:150])] + [R("HLEN", S("ha"))]
+        for i, m in enumerate([x for x in order if x in ms[:150]][:110]):
+            reqs.append(R("HDEL", S("ha"), S(m)))
+            if i % 10 == 0:
+                reqs += [R("HGET", S("ha"), S(m)), R("HLEN", S("ha")), R("HGETALL", S("ha")), R("HDEL", S("ha"), S(m))]
+        out.append(scen(reqs))
+        # sorted sets
+        reqs = [R("ZADD", S("za"), *[x for i, m in enumerate(ms[:150]) for x in (I((i * 7) % 50), S(m))]), R("ZCARD", S("za"))]
+        for i, m in enumerate([x for x in order if x in ms[:150]][:110]):
+            reqs.append(R("ZREM", S("za"), S(m)))
+            if i % 10 == 0:
+                reqs += [R("ZSCORE", S("za"), S(m)), R("ZCARD", S("za")), R("ZRANGE", S("za"), I(0), I(-1)), R("ZREM", S("za"), S(m))]
+        out.append(scen(reqs))
+    # lists
+    reqs = [R("RPUSH", S("la"), *[S(m) for m in ms[:150]]), R("LPUSH", S("la"), *[S(m) for m in ms[150:]]), R("LLEN", S("la"))]
+    for i in range(170):
+        reqs.append(R("LPOP" if i % 3 else "RPOP", S("la")))
+        if i % 20 == 0:
+            reqs += [R("LLEN", S("la")), R("LRANGE", S("la"), I(0), I(-1)), R("LINDEX", S("la"), I(i % 7))]
+    out.append(scen(reqs))
+    return out
+
+
 def run(ctx):
     thorough = ctx.tier == "thorough"
     ctx.build()
@@ -13,6 +59,9 @@ def run(ctx):
         counts = {}
     else:
         scenarios, counts = storelib.programs(ctx, "example", 2, thorough, 2500 if thorough else 60, 40)
+        big = big_collections()
+        counts["big_collection_scenarios"] = len(big)
+        scenarios += big
     ctx.stage("generate")
     accepted, scs, lines = connlib.run_scenarios(ctx, scenarios, "c18")
     groups = connlib.report(ctx, accepted, scs, lines, None, max_diag=80)
